@@ -472,3 +472,14 @@ Fixpoint c06_run_k (fuel : nat) (sched : list nat) (c : c06_cfg) (k : c06_counte
       end
   end.
 
+
+(* construction from an rvalue: the class declares a copy constructor, a copy assignment and a destructor and therefore has
+   no implicit move members -- `VariableSizeCommunicator m(std::move(o))` is the copy constructor *)
+Definition c06_vsc_move (other : c06_vsc) (fresh : nat) : c06_vsc := c06_vsc_copy other fresh.
+
+(* std::swap(a, b) = { T tmp(std::move(a)); a = std::move(b); b = std::move(tmp); } with the members above; returns (a, b) *)
+Definition c06_vsc_swap (a b : c06_vsc) (f1 f2 f3 : nat) : c06_vsc * c06_vsc :=
+  let tmp := c06_vsc_move a f1 in
+  let a' := c06_vsc_assign a b false f2 in
+  let b' := c06_vsc_assign b tmp false f3 in
+  (a', b').
